@@ -1,74 +1,131 @@
 #!/usr/bin/env python3
-"""Extracts the straight-line member functions of the extension-field tower from the SOURCE TEXT of the
-tree under test (src/bls12_381/fq2.cpp, fq6.cpp, fq12.cpp, fq12_cyclotomic.cpp) as step lists for
-spec/TowerMachine.tla:
+"""Extracts the straight-line functions of the extension-field tower and of the pairing from the SOURCE TEXT of
+the tree under test (src/bls12_381/fq2.cpp, fq6.cpp, fq12.cpp, fq12_cyclotomic.cpp, pairing.cpp) as step lists
+for spec/TowerMachine.tla (toy field) and spec/ExpMachine.tla (exponent arithmetic at full size):
 
   {"cls": "Fq6", "name": "multiply", "params": [{"type": "Fq6", "name": "a", "restrict": 0}, ...],
    "locals": [{"type": "Fq2", "name": "a_a"}, ...],
    "steps": [{"dst": ["a_a"], "op": "multiply", "args": [["a","c0"], ["b","c0"]]}, ...]}
 
-Every statement must be a local declaration or a method call  <object>.<method>(<objects>)  on `this`, a
-parameter, a local or one of their members; a function containing anything else (control flow, table
-look-ups, loops, free functions other than fp_inverse) is emitted as {"cls", "name", "unsupported": reason}
-so that the catalogue never silently shrinks.
+Free functions of pairing.cpp get cls = "pairing".  A statement must be one of
+   T name;                                   local object (T in Fq, Fq2, Fq6, Fq12)
+   T& name = <object>;                       reference: the name is replaced by the object's access path
+   unsigned int n = p < K ? p : p % M;       table index derived from an integer parameter   ($idx step)
+   <object>.<method>(<args>);                method call on this / a parameter / a local / one of their members
+   fp_inverse(<object>, <object>);
+   f<k, b>(<object>, <object>...);           call of a function template (kept as one step with its template arguments)
+with arguments that are objects, integer parameters / literals, or entries  table[<int>]  /  table[p & 0x1]  of a
+constant table.  A function containing anything else (control flow, loops, pointer arithmetic, ...) is emitted as
+{"cls", "name", "unsupported": reason} so that the catalogue never silently shrinks.
+An argument is a path ["a", "c0"], ["$tbl", table, "var"|"and1"|"lit", name-or-number] or ["$int", "var"|"lit", name-or-number].
 usage: extract_tower.py <out.ndjson>"""
 import os, re, sys, json
 
 REPO = os.environ.get("VERIF_REPO", "/repo")
-FILES = ["src/bls12_381/fq2.cpp", "src/bls12_381/fq6.cpp", "src/bls12_381/fq12.cpp", "src/bls12_381/fq12_cyclotomic.cpp"]
-TYPES = ("Fq", "Fq2", "Fq6", "Fq12")
+FILES = ["src/bls12_381/fq2.cpp", "src/bls12_381/fq6.cpp", "src/bls12_381/fq12.cpp", "src/bls12_381/fq12_cyclotomic.cpp", "src/bls12_381/pairing.cpp"]
+OBJ_TYPES = ("Fq", "Fq2", "Fq6", "Fq12", "MillerTriple", "G2", "G2Affine", "G1Affine")
+LOCAL_TYPES = ("Fq", "Fq2", "Fq6", "Fq12")
+INT_TYPES = ("unsigned int", "int", "unsigned", "size_t")
 
 def strip_comments(s):
     s = re.sub(r"/\*.*?\*/", " ", s, flags=re.S)
     return re.sub(r"//[^\n]*", " ", s)
 
-def parse_path(tok):
-    tok = tok.strip()
-    tok = tok.replace("this->", "this.")
-    if tok == "*this": return ["this"]
-    if not re.match(r"^[A-Za-z_]\w*(\.\w+)*$", tok): return None
-    return tok.split(".")
+def body_at(src, j):
+    depth = 1
+    while depth and j < len(src):
+        if src[j] == "{": depth += 1
+        elif src[j] == "}": depth -= 1
+        j += 1
+    return j
 
-def functions(src):
+def functions(src, free):
     for m in re.finditer(r"\b(?:void|bool|int)\s+(Fq(?:2|6|12)?)::(\w+)\s*\(([^)]*)\)\s*(?:const\s*)?\{", src):
-        depth, j = 1, m.end()
-        while depth and j < len(src):
-            if src[j] == "{": depth += 1
-            elif src[j] == "}": depth -= 1
-            j += 1
+        j = body_at(src, m.end())
         yield m.group(1), m.group(2), m.group(3), src[m.end():j - 1]
+    if free:
+        for m in re.finditer(r"(?<![\w:])(?:static\s+)?(?:inline\s+)?void\s+(\w+)\s*\(([^)]*)\)\s*\{", src):
+            j = body_at(src, m.end())
+            yield "pairing", m.group(1), m.group(2), src[m.end():j - 1]
 
 def parse_params(ps):
     out = []
     for p in [x.strip() for x in ps.split(",") if x.strip() and x.strip() != "void"]:
-        m = re.match(r"^(?:const\s+)?([\w:<>]+)\s*(?:&|\*)?\s*(__restrict)?\s*(\w+)$", p.replace("& __restrict", "& __restrict ").replace("&", " & ").replace("  ", " ").replace(" & ", "& "))
-        m = re.match(r"^(?:const\s+)?([\w:<>]+)\s*&?\s*(__restrict)?\s*(\w+)$", re.sub(r"\s+", " ", p.replace("&", " ")))
-        if not m: out.append({"type": "?", "name": p, "restrict": 0}); continue
-        out.append({"type": m.group(1), "name": m.group(3), "restrict": 1 if "__restrict" in p else 0})
+        q = re.sub(r"\s+", " ", p.replace("&", " ").replace("*", " * ")).strip()
+        m = re.match(r"^(?:const )?(unsigned int|[\w:<>]+) ?(__restrict)? ?(\w+)$", q)
+        if not m or "*" in q: out.append({"type": "?", "name": p, "restrict": 0}); continue
+        t = "uint" if m.group(1) in INT_TYPES else m.group(1)
+        out.append({"type": t, "name": m.group(3), "restrict": 1 if "__restrict" in p else 0})
     return out
 
+class Unsupported(Exception): pass
+
 def parse_body(cls, name, params, body):
-    locals_, steps = [], []
-    known = {"this"} | {p["name"] for p in params}
-    for st in [s.strip() for s in body.split(";")]:
+    locals_, steps, alias = [], [], {}
+    objs = {"this"} | {p["name"] for p in params if p["type"] != "uint"}
+    ints = {p["name"] for p in params if p["type"] == "uint"}
+
+    def path(tok):
+        tok = tok.strip().replace("this->", "this.")
+        if tok == "*this": return ["this"]
+        if not re.match(r"^[A-Za-z_]\w*(\.\w+)*$", tok): return None
+        parts = tok.split(".")
+        if parts[0] in alias: parts = alias[parts[0]] + parts[1:]
+        return parts if parts[0] in objs else None
+
+    def arg(tok):
+        tok = tok.strip()
+        p = path(tok)
+        if p: return p
+        if re.match(r"^\d+$", tok): return ["$int", "lit", int(tok)]
+        if tok in ints: return ["$int", "var", tok]
+        m = re.match(r"^(\w+)\s*\[\s*(.+?)\s*\]$", tok)
+        if m:
+            ix = m.group(2)
+            if re.match(r"^\d+$", ix): return ["$tbl", m.group(1), "lit", int(ix)]
+            if ix in ints: return ["$tbl", m.group(1), "var", ix]
+            m2 = re.match(r"^(\w+)\s*&\s*(?:0x)?1$", ix)
+            if m2 and m2.group(1) in ints: return ["$tbl", m.group(1), "and1", m2.group(1)]
+        return None
+
+    for st in [s.strip().replace("this->", "this.") for s in body.split(";")]:
         if not st: continue
+        short = re.sub(r"\s+", " ", st)[:70]
         m = re.match(r"^(Fq(?:2|6|12)?)\s+(\w+)$", st)
         if m:
-            locals_.append({"type": m.group(1), "name": m.group(2)}); known.add(m.group(2)); continue
+            locals_.append({"type": m.group(1), "name": m.group(2)}); objs.add(m.group(2)); continue
+        m = re.match(r"^(Fq(?:2|6|12)?)\s*&\s*(\w+)\s*=\s*(.+)$", st)
+        if m:
+            p = path(m.group(3))
+            if not p: raise Unsupported("statement: " + short)
+            alias[m.group(2)] = p; continue
+        m = re.match(r"^unsigned int\s+(\w+)\s*=\s*(\w+)\s*<\s*(\d+)\s*\?\s*(\w+)\s*:\s*(\w+)\s*%\s*(\d+)$", st)
+        if m and m.group(2) == m.group(4) == m.group(5) and m.group(2) in ints:
+            ints.add(m.group(1))
+            steps.append({"dst": [m.group(1)], "op": "$idx", "args": [["$int", "var", m.group(2)], ["$int", "lit", int(m.group(3))], ["$int", "lit", int(m.group(6))]]}); continue
         m = re.match(r"^fp_inverse\s*\(\s*([^,]+),\s*([^)]+)\)$", st)
         if m:
-            d, a = parse_path(m.group(1)), parse_path(m.group(2))
-            if d and a and d[0] in known and a[0] in known: steps.append({"dst": d, "op": "inverse", "args": [a]}); continue
-            return None, None, "statement: " + st[:60]
+            d, a = path(m.group(1)), path(m.group(2))
+            if d and a: steps.append({"dst": d, "op": "inverse", "args": [a]}); continue
+            raise Unsupported("statement: " + short)
+        m = re.match(r"^(\w+)\s*<\s*([^>]*)>\s*\((.*)\)$", st, flags=re.S)
+        if m:
+            targs = []
+            for t in [x.strip() for x in m.group(2).split(",")]:
+                if re.match(r"^\d+$", t): targs.append(int(t))
+                elif t in ("true", "false"): targs.append(1 if t == "true" else 0)
+                else: raise Unsupported("statement: " + short)
+            args = [path(a) for a in m.group(3).split(",")]
+            if len(args) < 1 or any(a is None for a in args): raise Unsupported("statement: " + short)
+            steps.append({"dst": args[0], "op": m.group(1), "args": args[1:], "targs": targs}); continue
         m = re.match(r"^([\w>\-\.\*]+?)\.(\w+)\s*\((.*)\)$", st, flags=re.S)
         if m:
-            d = parse_path(m.group(1))
-            args = [parse_path(a) for a in m.group(3).split(",")] if m.group(3).strip() else []
-            if d is None or d[0] not in known or any(a is None or a[0] not in known for a in args):
-                return None, None, "statement: " + re.sub(r"\s+", " ", st)[:70]
+            d = path(m.group(1))
+            args = [arg(a) for a in m.group(3).split(",")] if m.group(3).strip() else []
+            if d is None or any(a is None for a in args): raise Unsupported("statement: " + short)
             steps.append({"dst": d, "op": m.group(2), "args": args}); continue
-        return None, None, "statement: " + re.sub(r"\s+", " ", st)[:70]
-    return locals_, steps, None
+        raise Unsupported("statement: " + short)
+    return locals_, steps
 
 def main():
     out = sys.argv[1]
@@ -77,15 +134,16 @@ def main():
         path = os.path.join(REPO, f)
         if not os.path.exists(path): continue
         src = strip_comments(open(path, errors="replace").read())
-        for cls, name, ps, body in functions(src):
+        for cls, name, ps, body in functions(src, f.endswith("pairing.cpp")):
             params = parse_params(ps)
             row = {"cls": cls, "name": name, "file": f, "params": params}
-            if any(p["type"] not in TYPES for p in params):
+            if any(p["type"] not in OBJ_TYPES + ("uint",) for p in params):
                 row["unsupported"] = "parameter types " + ",".join(p["type"] for p in params)
             else:
-                loc, steps, why = parse_body(cls, name, params, body)
-                if why: row["unsupported"] = why
-                else: row["locals"] = loc; row["steps"] = steps
+                try:
+                    row["locals"], row["steps"] = parse_body(cls, name, params, body)
+                except Unsupported as e:
+                    row["unsupported"] = str(e)
             rows.append(row)
     # overloads: number by order
     seen = {}
